@@ -61,7 +61,7 @@ impl Base {
     fn ke(&self) -> BigUint {
         let n = &r9::params().n;
         let h1 = r9::h1(&self.id(), 0x03);
-        let k = match self.ke_rel {
+        let k = match self.ke_rel & 0x0f {
             1 => h1,
             2 => (h1 * 2u32) % n,
             3 => (h1 + n - 1u32) % n,
@@ -70,6 +70,20 @@ impl Base {
             _ => from_be(&self.ke) % (n - 1u32) + 1u32,
         };
         if k == BigUint::from(0u32) { BigUint::one() } else { k }
+    }
+    /// the master key object handed to the library, Ppub-e in the representation selected by the high nibble of `ke_rel`
+    /// (0 affine, 1 as computed by Point::g_mul, 2 Z = 2, 3 pseudo-random Z, 4 Z with Montgomery limbs [1,0,0,0])
+    fn lib_master(&self, m: &Master) -> Sm9EncMasterKey {
+        let mut l = m.lib;
+        l.ppube = g1_in_rep(&m.ppube, Some(&m.ke), self.ke_rel >> 4, self.id_seed ^ self.msg_seed);
+        l
+    }
+    /// the user's decryption key in a representation derived from the same selector (0/1: as extracted by the library)
+    fn lib_user_key(&self, key: gm_sm9::key::Sm9EncKey, de_ref: &Pt<crate::refimpl::field::Fp2>) -> gm_sm9::key::Sm9EncKey {
+        match self.ke_rel >> 4 {
+            0 | 1 => key,
+            k => gm_sm9::key::Sm9EncKey { de: g2_in_rep(de_ref, None, k, self.id_seed ^ 0xde), ..key },
+        }
     }
     fn r(&self) -> BigUint {
         from_be(&self.r) % (&r9::params().n - 2u32) + 1u32
@@ -88,7 +102,8 @@ fn check_encrypt(b: &Base) -> CaseResult {
     let (id, msg, r) = (b.id(), b.msg(), b.r());
     let Some(de_ref) = r9::enc_key(&m.ke, &id) else { return pass(false, "extraction-undefined") };
     let r2 = from_be(&expand_bytes(b.msg_seed ^ 0x1005, 32)) % (n - 2u32) + 1u32;
-    let (res, left) = with_sm9_candidates(vec![to32(&r), to32(&r2)], || m.lib.encrypt(&id, &msg));
+    let libm = b.lib_master(&m);
+    let (res, left) = with_sm9_candidates(vec![to32(&r), to32(&r2)], || libm.encrypt(&id, &msg));
     let ct = match res {
         Ok(v) => v,
         Err(p) => return fail(format!("entry=Sm9EncMasterKey::encrypt input=valid outcome=panic site={}", panic_site(&p)), p),
@@ -104,7 +119,8 @@ fn check_encrypt(b: &Base) -> CaseResult {
     }
     // independent decryption, and the library's own
     ensure!(r9::decrypt(&de_ref, &id, &ct).as_deref() == Some(&msg[..]), "entry=Sm9EncMasterKey::encrypt outcome=not-a-GM/T-0044.4-ciphertext", "independent decryption fails");
-    let key = catch(|| m.lib.extract_key(&id)).map_err(|p| Fail { key: "entry=Sm9EncMasterKey::extract_key outcome=panic".into(), detail: p })?.ok_or_else(|| Fail { key: "entry=Sm9EncMasterKey::extract_key input=valid outcome=none".into(), detail: "".into() })?;
+    let key = catch(|| libm.extract_key(&id)).map_err(|p| Fail { key: "entry=Sm9EncMasterKey::extract_key outcome=panic".into(), detail: p })?.ok_or_else(|| Fail { key: "entry=Sm9EncMasterKey::extract_key input=valid outcome=none".into(), detail: "".into() })?;
+    let key = b.lib_user_key(key, &de_ref);
     let back = outcome(|| key.decrypt(&id, &ct));
     ensure!(back == Outcome::Ok(msg.clone()), "entry=Sm9EncKey::decrypt input=own-ciphertext outcome=round-trip-failure", "ke={:x} |ID|={} |M|={}: {}", m.ke, id.len(), msg.len(), back.describe());
     pass(true, format!("fixed-r/{}", if msg.len() % 32 == 0 { "mlen%32=0" } else { "mlen" }))
@@ -146,7 +162,8 @@ pub fn check_tamper(c: &TCase) -> CaseResult {
     let Some(de_ref) = r9::enc_key(&m.ke, &id) else { return pass(false, "extraction-undefined") };
     let Some(base_ct) = r9::encrypt_with_r(&m.ppube, &m.g, &id, &msg, &r) else { return pass(false, "retry-r") };
     let mut ct = base_ct.encode();
-    let key = catch(|| m.lib.extract_key(&id)).map_err(|p| Fail { key: "entry=Sm9EncMasterKey::extract_key outcome=panic".into(), detail: p })?.ok_or_else(|| Fail { key: "entry=Sm9EncMasterKey::extract_key input=valid outcome=none".into(), detail: "".into() })?;
+    let key = catch(|| b.lib_master(&m).extract_key(&id)).map_err(|p| Fail { key: "entry=Sm9EncMasterKey::extract_key outcome=panic".into(), detail: p })?.ok_or_else(|| Fail { key: "entry=Sm9EncMasterKey::extract_key input=valid outcome=none".into(), detail: "".into() })?;
+    let key = b.lib_user_key(key, &de_ref);
     let class: &'static str;
     match &c.tamper {
         Tamper::None => class = "untouched",
@@ -302,7 +319,7 @@ fn base_strategy() -> impl Strategy<Value = Base> {
         any::<u64>(),
         gen::scalar256(&n),
     )
-        .prop_map(|(ke, id_len, id_seed, msg_len, msg_seed, r)| Base { ke, ke_rel: 0, id_len, id_seed, msg_len, msg_seed, r })
+        .prop_map(|(ke, id_len, id_seed, msg_len, msg_seed, r)| Base { ke, ke_rel: ((msg_seed % 5) as u8) << 4, id_len, id_seed, msg_len, msg_seed, r })
 }
 
 pub fn tamper_strategy() -> impl Strategy<Value = Tamper> {
@@ -326,14 +343,14 @@ fn fixed_bases(seed: u64, count: usize) -> Vec<Base> {
     (0..count)
         .map(|i| {
             let s = seed.wrapping_mul(9001) + i as u64;
-            Base { ke: gen::hex32(&BigUint::from(0x1234_5678u64 + (i as u64 % 2))), ke_rel: 0, id_len: [3usize, 5, 0, 17][i % 4], id_seed: s ^ 1, msg_len: [20usize, 1, 32, 7][i % 4], msg_seed: s ^ 2, r: Hex(expand_bytes(s ^ 3, 32)) }
+            Base { ke: gen::hex32(&BigUint::from(0x1234_5678u64 + (i as u64 % 2))), ke_rel: ((i % 5) as u8) << 4, id_len: [3usize, 5, 0, 17][i % 4], id_seed: s ^ 1, msg_len: [20usize, 1, 32, 7][i % 4], msg_seed: s ^ 2, r: Hex(expand_bytes(s ^ 3, 32)) }
         })
         .collect()
 }
 
 pub fn run(ctx: &Ctx) {
     ctx.set_rule(
-        "encryption cases are (ke, identity, message of 1..255 bytes, r): every message length 1..=255 with r injected through the RNG hook, plus generated master keys / identities; tampering cases are (reference-made ciphertext, tampering): \
+        "encryption cases are (ke, representation of Ppub-e and of the user key de: affine / as computed by the library / Z = 2 / random Z / Z with Montgomery limbs [1,0,0,0], identity, message of 1..255 bytes, r): every message length 1..=255 with r injected through the RNG hook, plus generated master keys / identities; tampering cases are (reference-made ciphertext, tampering): \
          every single-bit flip incl. the prefix byte (sampled in the quick tier, all in the thorough tier), every truncation length, extensions (also beyond 97+255 bytes), another identity, C1 nudged off the curve, C1 replaced by an off-curve point with \
          C3/C2 forged from the library's own pairing value on that non-point (the invalid-curve forgery), every other prefix byte, the x+p alias of C1, multi-byte alterations of C3 / C2 / C1.x that preserve the xor, the sum or the multiset of the bytes or words (a folded or partial MAC comparison accepts them), wholesale replacements of C3. Oracles: exact equality with the reference encryptor (C1 || C3 || C2, MAC(K2, C2) = SM3(C2 || K2), \
          K = KDF(C1 || w || ID, |M| + 32)); independent decryption; round trip; reference-made and Annex ciphertexts decrypt, also with C1 a boundary point of G1; for tamperings the reference decryptor decides, a panic is a violation. Non-trivial: fixed-r comparison, or a rejected tampering.",
@@ -357,18 +374,47 @@ pub fn run(ctx: &Ctx) {
 
     let seed = ctx.seed;
     ctx.exhaustive("message_lengths_1_255", "every message length 1..=255 with r injected: exact ciphertext, independent decryption, round trip", move || {
-        (1..=255usize).map(|l| Base { ke: gen::hex32(&BigUint::from(0x1234_5678u64)), ke_rel: 0, id_len: 1 + l % 11, id_seed: seed ^ l as u64, msg_len: l, msg_seed: seed.wrapping_mul(17) ^ l as u64, r: Hex(expand_bytes(seed ^ 0x1010 ^ l as u64, 32)) }).collect()
+        (1..=255usize).map(|l| Base { ke: gen::hex32(&BigUint::from(0x1234_5678u64)), ke_rel: ((l % 5) as u8) << 4, id_len: 1 + l % 11, id_seed: seed ^ l as u64, msg_len: l, msg_seed: seed.wrapping_mul(17) ^ l as u64, r: Hex(expand_bytes(seed ^ 0x1010 ^ l as u64, 32)) }).collect()
     }, check_encrypt);
     let nrel = ctx.tier.pick(6u64, 40u64);
     ctx.listed("master_key_related_to_h1", "master keys crafted from the identity: ke = H1(ID||03) (Q_B becomes a doubling), ke = 2*H1, ke = H1 - 1: exact ciphertext and round trip; reference ciphertext decrypts", move || {
         let mut v = Vec::new();
         for i in 0..nrel {
             for rel in 1..=3u8 {
-                v.push(Base { ke: gen::hex32(&BigUint::one()), ke_rel: rel, id_len: 1 + (i as usize % 20), id_seed: seed ^ (0x5e1 + i), msg_len: 1 + (i as usize * 11) % 60, msg_seed: seed ^ i, r: Hex(expand_bytes(seed ^ 0x5e2 ^ i, 32)) });
+                v.push(Base { ke: gen::hex32(&BigUint::one()), ke_rel: rel | ((i % 5) as u8) << 4, id_len: 1 + (i as usize % 20), id_seed: seed ^ (0x5e1 + i), msg_len: 1 + (i as usize * 11) % 60, msg_seed: seed ^ i, r: Hex(expand_bytes(seed ^ 0x5e2 ^ i, 32)) });
             }
         }
         v
     }, |b| { check_encrypt(b)?; check_ref_encrypted(b) });
+
+    let two_byte = ctx.tier.pick(false, true);
+    ctx.listed("crafted_zero_k1", "one- and two-byte messages with an r (found by walking r upwards with the reference) for which K1 = KDF(...)[..|M|] is all zero: GM/T 0044.4 step A6 sends the encryptor back to A2, so with candidates (r_bad, r_good) injected the ciphertext must be the one for r_good; a one-byte message meets such an r once in 256 encryptions", move || {
+        use rayon::prelude::*;
+        let mut v = Vec::new();
+        for (j, msg_len) in [1usize, 1, 1, 2].iter().enumerate() {
+            let b0 = Base { ke: gen::hex32(&BigUint::from(0x1234_5678u64 - 1)), ke_rel: 0, id_len: 2 + j, id_seed: seed ^ (0x2e70 + j as u64), msg_len: *msg_len, msg_seed: seed ^ (0x2e71 + j as u64), r: Hex(vec![0; 32]) };
+            let m = master(&b0.ke());
+            let (id, msg) = (b0.id(), b0.msg());
+            let start = from_be(&expand_bytes(seed ^ (0x2e72 + j as u64), 24));
+            let span = if *msg_len == 1 { 4096u64 } else { 1 << 18 };
+            if *msg_len == 2 && !two_byte {
+                continue; // the two-byte search needs about 2^16 reference encryptions: thorough tier only
+            }
+            let hit = (0..span).into_par_iter().find_first(|i| r9::encrypt_with_r(&m.ppube, &m.g, &id, &msg, &(&start + *i)).is_none());
+            if let Some(i) = hit {
+                let mut b = b0.clone();
+                b.r = gen::hex32(&(&start + i - 1u32)); // Base::r() maps the stored value v to v mod (N-2) + 1
+                v.push(b);
+            }
+        }
+        v
+    }, |b| {
+        let m = master(&b.ke());
+        if r9::encrypt_with_r(&m.ppube, &m.g, &b.id(), &b.msg(), &b.r()).is_some() {
+            return pass(false, "crafting-failed");
+        }
+        check_encrypt(b).map(|_| Pass { nt: true, class: format!("zero-K1/mlen={}", b.msg_len) })
+    });
 
     ctx.generated("generated_fixed_r", "proptest (ke, identity, message, r): exact ciphertext", ctx.tier.pick(250, 8_000), base_strategy, check_encrypt);
     ctx.generated("reference_encrypted", "ciphertexts made by the reference decrypt under the library", ctx.tier.pick(300, 8_000), base_strategy, check_ref_encrypted);
@@ -421,11 +467,18 @@ pub fn run(ctx: &Ctx) {
                 TCase { base: b.clone(), tamper: Tamper::None }, TCase { base: b.clone(), tamper: Tamper::FlipBit(70 * 8) }, TCase { base: b.clone(), tamper: Tamper::NegatedKey },
             ]);
             let mut neg = b.clone();
-            neg.ke_rel = 4;
+            neg.ke_rel = 4 | (b.ke_rel & 0xf0);
             v.push(vec![TCase { base: b.clone(), tamper: Tamper::None }, TCase { base: neg.clone(), tamper: Tamper::None }, TCase { base: b.clone(), tamper: Tamper::None }, TCase { base: neg.clone(), tamper: Tamper::NegatedKey }, TCase { base: b.clone(), tamper: Tamper::NegatedKey }]);
         }
         v
     }, |steps: &Vec<TCase>| seq(steps, |c| { check_tamper(c)?; if matches!(c.tamper, Tamper::None) { check_encrypt(&c.base) } else { pass(true, "") } }));
+
+    let zl_step = ctx.tier.pick(6usize, 1usize);
+    ctx.listed("nonces_with_zero_limbs", "r with an all-zero 64-bit limb below a non-zero limb (every 6th pattern in the quick tier): exact ciphertext, round trip", move || {
+        let n = &r9::params().n;
+        gen::zero_limb_scalars().into_iter().enumerate().filter(|(i, k)| i % zl_step == 0 && k < &(n - 1u32) && k > &BigUint::one())
+            .map(|(i, k)| Base { ke: gen::hex32(&BigUint::from(0x1234_5678u64)), ke_rel: ((i % 5) as u8) << 4, id_len: 3, id_seed: seed ^ 0x2e2, msg_len: 11, msg_seed: seed ^ i as u64, r: gen::hex32(&(&k - 1u32)) }).collect::<Vec<_>>()
+    }, check_encrypt);
 
     ctx.cold("cold_start_encrypt", "SM9 encrypt (r injected) as the first library operation of a fresh process", move || fixed_bases(seed ^ 0xc10d, 2), check_encrypt);
     ctx.cold("cold_start_decrypt", "SM9 decrypt as the first library operation of a fresh process: untouched, C3 / C2 bit flips, a cancelling C3 alteration, another identity", move || {
